@@ -217,13 +217,91 @@ func Value(t *rapid.T, b *strings.Builder, depth int) {
 	}
 }
 
-// Doc draws one valid JSON document with optional surrounding whitespace.
+// Doc draws one valid JSON document with optional surrounding whitespace. One document in
+// sixteen is "big": nested deeper than the parsers' initial stacks (32), or carrying a string or
+// an array long enough to outgrow the initial scratch buffers and to cross 4096-byte refills.
 func Doc(t *rapid.T, depth int) []byte {
 	var b strings.Builder
 	ws(t, &b)
-	Value(t, &b, depth)
+	if sim.Intn(t, 16, "bigdoc") == 15 {
+		Big(t, &b)
+	} else {
+		Value(t, &b, depth)
+	}
 	ws(t, &b)
 	return []byte(b.String())
+}
+
+// Big writes a deep, long-string or long-array document.
+func Big(t *rapid.T, b *strings.Builder) {
+	switch sim.Intn(t, 4, "bigkind") {
+	case 0: // deep nesting
+		d := 20 + sim.Intn(t, 70, "bigdepth")
+		var closers []byte
+		for i := 0; i < d; i++ {
+			if sim.Intn(t, 3, "objlevel") == 2 {
+				b.WriteString(`{"`)
+				b.WriteString(keyPool[sim.Intn(t, len(keyPool), "key")])
+				b.WriteString(`":`)
+				closers = append(closers, '}')
+			} else {
+				b.WriteByte('[')
+				if sim.Intn(t, 4, "sibling") == 3 {
+					b.WriteString("1,")
+				}
+				closers = append(closers, ']')
+			}
+		}
+		Value(t, b, 1)
+		for i := len(closers) - 1; i >= 0; i-- {
+			ws(t, b)
+			b.WriteByte(closers[i])
+		}
+	case 1: // long string with escapes, repeated body
+		body := StringBody(t, 10)
+		if body == "" {
+			body = `a
+b`
+		}
+		n := 1 + sim.Intn(t, 900, "rep")
+		b.WriteString(`["`)
+		for i := 0; i < n; i++ {
+			b.WriteString(body)
+		}
+		b.WriteString(`",`)
+		Value(t, b, 1)
+		b.WriteByte(']')
+	case 2: // long array of short values
+		n := 50 + sim.Intn(t, 1200, "n")
+		var el strings.Builder
+		Value(t, &el, 0)
+		b.WriteByte('[')
+		for i := 0; i < n; i++ {
+			if i > 0 {
+				b.WriteByte(',')
+			}
+			b.WriteString(el.String())
+			if i%97 == 96 {
+				b.WriteByte('\n')
+			}
+		}
+		b.WriteByte(']')
+	default: // object with many members
+		n := 10 + sim.Intn(t, 300, "n")
+		b.WriteByte('{')
+		for i := 0; i < n; i++ {
+			if i > 0 {
+				b.WriteByte(',')
+			}
+			b.WriteString(fmt.Sprintf(`"k%d":`, i%(1+n/2)))
+			if i%7 == 0 {
+				Value(t, b, 1)
+			} else {
+				b.WriteString(fmt.Sprint(i))
+			}
+		}
+		b.WriteByte('}')
+	}
 }
 
 var interesting = []byte("{}[],:\"\\0123456789.eE+-tfnulrasx \n\t\r/'")
